@@ -943,7 +943,7 @@ class BradleyTerryPart:
         if ranks:
             team_scores = []
             for index, _ in enumerate(game):
-                if isinstance(ranks[index], int):
+                if isinstance(ranks[index], (int, float)):
                     team_scores.append(ranks[index])
                 else:
                     team_scores.append(index)
